@@ -156,3 +156,77 @@ class RedirStart(object):
         if not obs['running']:
             bad.add('post[2]')
         return bad
+
+
+class FakePipe(object):
+    def __init__(self, fd):
+        self.fd = fd
+
+    def fileno(self):
+        return self.fd
+
+
+class PipedProc(object):
+    def __init__(self, pid, out_fd, err_fd):
+        self.pid = pid
+        self.pipe_stdout = out_fd is not None
+        self.pipe_stderr = err_fd is not None
+        self.stdout = FakePipe(out_fd) if out_fd is not None else None
+        self.stderr = FakePipe(err_fd) if err_fd is not None else None
+        self.redirected = False
+
+
+@register('circus.stream.redirector:Redirector.add_redirections')
+class AddRedirections(object):
+    """a new worker generation whose pipes reuse descriptor numbers still watched for the previous one"""
+    def from_model(self, m):
+        return []
+
+    def enumerate(self):
+        for running in (True, False):
+            for stale in ('none', 'active-handler', 'pipes-entry-only'):
+                for fds in ((6, 8), (6, None), (None, 8)):
+                    yield {'running': running, 'stale': stale, 'fds': list(fds)}
+
+    def run(self, inp):
+        r, loop, got = make()
+        old = PipedProc(111, *inp['fds'])
+        new = PipedProc(222, *inp['fds'])
+        if inp['running']:
+            r.start()
+        if inp['stale'] != 'none':
+            for name, fd in (('stdout', inp['fds'][0]), ('stderr', inp['fds'][1])):
+                if fd is None:
+                    continue
+                r.pipes[fd] = (name, old, None)
+                if inp['stale'] == 'active-handler':
+                    r._start_one(fd, name, old, None)
+        obs = {}
+        try:
+            r.add_redirections(new)
+        except Exception as e:
+            obs['raised'] = type(e).__name__
+        fds = [f for f in inp['fds'] if f is not None]
+        obs['handler_pids'] = dict((str(f), r._active[f].process.pid) for f in fds if f in r._active)
+        obs['watched'] = sorted(loop.handlers)
+        obs['pipes_pids'] = dict((str(f), r.pipes[f][1].pid) for f in fds if f in r.pipes)
+        obs['redirected'] = new.redirected
+        return obs
+
+    def check(self, inp, obs):
+        bad = set()
+        if 'raised' in obs:
+            return set(['noescape'])
+        fds = [f for f in inp['fds'] if f is not None]
+        for f in fds:
+            hp = obs['handler_pids'].get(str(f))
+            if hp is not None and hp != 222:
+                bad.add('post[no-stale-handler-on-a-reused-fd]')
+                bad.add('post[new-generation-gets-its-own-handler]')
+            if inp['running'] and (hp is None or f not in obs['watched']):
+                bad.add('post[watched-when-running]')
+            if obs['pipes_pids'].get(str(f)) != 222:
+                bad.add('post[no-stale-handler-on-a-reused-fd]')
+        if not obs['redirected']:
+            bad.add('post[1]')
+        return bad
